@@ -372,6 +372,7 @@ def main():
     assumed_contracts = set()
     proved_keys = set()
     used_keys = set()
+    frozen_items = set()
     rules_fired = {}
     trusted_scan = {}
     samples = []
@@ -405,6 +406,8 @@ def main():
                     rules_fired[k] = rules_fired.get(k, 0) + v
             elif f["mode"] == "use":
                 used_keys.add(f["key"])
+            elif f["mode"] == "frozen":
+                frozen_items.add("%s :: %s" % (f["file"], f["selector"]))
         for k, v in vxbuild.scan_trusted(r.unit).items():
             trusted_scan[k] = trusted_scan.get(k, 0) + v
         for ln, lab in sorted(r.unit.labels.items()):
@@ -456,6 +459,8 @@ def main():
     trusted_base.append("trusted constructs in the generated units (mechanical scan): " + json.dumps(trusted_scan, sort_keys=True))
     if assumed_contracts:
         trusted_base.append("ASSUMED contracts (used as external_body, proved by no unit): " + ", ".join(assumed_contracts))
+    if frozen_items:
+        trusted_base.append("repository items represented by a hand-written stub and NOT verified (their text is hash-frozen; a change makes the check undecided): " + "; ".join(sorted(frozen_items)))
     if proved_elsewhere:
         trusted_base.append("contracts used here and proved in another unit: " + ", ".join(proved_elsewhere))
     for s in scan_results:
